@@ -313,8 +313,21 @@ def r2_commit(ctx):
             outer = enclosing(outer, ast.For)
         iters = [ast.unparse(l.iter) for l in chain]
         over_oms = any(isinstance(l.iter, ast.Name) and l.iter.id == oms_name for l in chain)
-        pairs = [l for l in chain if isinstance(l.iter, ast.Call) and isinstance(l.iter.func, ast.Name) and
-                 l.iter.func.id == 'zip' and [a.id for a in l.iter.args if isinstance(a, ast.Name)] == [sel_n, sel_m]]
+        def is_zip(e):
+            return isinstance(e, ast.Call) and isinstance(e.func, ast.Name) and e.func.id == 'zip' and \
+                [a.id for a in e.args if isinstance(a, ast.Name)] == [sel_n, sel_m]
+
+        def pair_source(e):
+            # zip(N, M) itself, or a list of the (n, m) pairs of that zip kept in the same order (a filtered copy held in a local)
+            if is_zip(e):
+                return True
+            if isinstance(e, ast.Name) and len(defs.get(e.id, [])) == 1 and isinstance(defs[e.id][0][1], ast.ListComp):
+                lc = defs[e.id][0][1]
+                g_ = lc.generators
+                return len(g_) == 1 and is_zip(g_[0].iter) and isinstance(g_[0].target, ast.Tuple) and isinstance(lc.elt, ast.Tuple) and \
+                    [ast.unparse(x) for x in lc.elt.elts] == [ast.unparse(x) for x in g_[0].target.elts]
+            return False
+        pairs = [l for l in chain if pair_source(l.iter)]
         ok_args = False
         if pairs and isinstance(pairs[0].target, ast.Tuple):
             tv = [e.id for e in pairs[0].target.elts if isinstance(e, ast.Name)]
